@@ -11,7 +11,9 @@ import DarsiaProofs.PatchesImg
 namespace Darsia.C19
 open Darsia Darsia.Patch Darsia.Im
 
-/-- patch size: the metric formula of the code, in exact arithmetic, is `⌈N/n⌉` (integer form). -/
+/-- patch size: the code computes `pv = -(-N // n)` (`pvInt`, integer arithmetic, since fix 3bb4cd3); this theorem records
+that it is `⌈N/n⌉`, equals — in exact arithmetic — the metric formula `ceil((D/n)/(D/N))` the code used before (whose float
+evaluation was the defect), and satisfies `N ≤ n·pv < N + n`. -/
 theorem pv_eq_ceil (D : Rat) (N n : Nat) (hD : 0 < D) (hN : 0 < N) (hn : 0 < n) :
     pvRat D N n = (pvInt N n : Int) ∧ N ≤ n * pvInt N n ∧ n * pvInt N n < N + n :=
   ⟨pvRat_eq_pvInt D N n hD hN hn, pvInt_bounds N n hn⟩
@@ -101,6 +103,25 @@ theorem corners_voxel_physical_disagree_witness :
     Axis.cornerLo ⟨7, 3, pvInt 7 3, 0⟩ 1 = 3 ∧ cornerMetricVox 1 7 3 1 = 7 / 3 ∧
       Rat.floor (cornerMetricVox 1 7 3 1) = 2 := by decide +kernel
 
+/-- END TO END: for every well-formed 2-D geometry, positive patch counts and relative overlap in [0, 1], the axes the code
+derives (`axesOf`: `pv = ⌈N/n⌉`, `ov = ceil(rel·(D/n)/(D/N))`) make `assemble()` the identity grid — `interiors_partition_pv`,
+`ov_le_pv` and `assemble_id` composed, no hypothesis on `pv`/`ov` left. -/
+theorem assemble_patches_id (cs : CS) (hcs : cs.ok) (hd : cs.dim = .d2) (n0 n1 : Nat) (hn0 : 0 < n0) (hn1 : 0 < n1)
+    (rel : Rat) (h0 : 0 ≤ rel) (h1 : rel ≤ 1) :
+    assemble (axesOf cs n0 n1 rel).1 (axesOf cs n0 n1 rel).2 = baseGrid (axesOf cs n0 n1 rel).1 (axesOf cs n0 n1 rel).2 :=
+  assemble_axesOf cs hcs hd n0 n1 hn0 hn1 rel h0 h1
+
+/-- the advertised voxel corners (`global_corners_voxels`: `cornerLo = i·pv`, `cornerHi = min(N, (i+1)·pv)`) delimit the
+interior of the patch, whatever the overlap, for every patch that starts inside the image; and the patch WITH overlap is
+the block `[max(cornerLo − ov, 0), min((i+1)·pv + ov, N))` (`patch_is_subimage`). -/
+theorem corners_delimit_interior (a : Axis) (i : Nat) (hov : a.ov ≤ a.pv) (hin : i * a.pv ≤ a.N) :
+    a.piece i = List.range' (a.cornerLo i) (a.cornerHi i - a.cornerLo i) := piece_eq_corners a i hov hin
+
+/-- KNOWN FINDING (negative, concrete witness): when `n ∤ N` the advertised voxel CENTRE of a patch, `⌊(i+½)·N/n⌋`, can lie
+outside the interior of that patch: N = 7, n = 3, i = 2: centre voxel 5, interior of patch 2 is `[6]`. -/
+theorem centre_outside_patch_witness :
+    Rat.floor (((2 : Rat) + 1 / 2) * ((7 : Rat) / 3)) = 5 ∧ Axis.piece ⟨7, 3, pvInt 7 3, 0⟩ 2 = [6] := by decide +kernel
+
 /-! ### round 2: patches as images (metadata + pixel array, scalar and vector payload), counting form, blending -/
 
 /-- PER-PATCH METADATA AND DATA = the C02 sub-image theorem instantiated at `rois[i][j]`: a non-empty patch (i, j)
@@ -156,7 +177,7 @@ theorem interiors_cover_once (a : Axis) (hov : a.ov ≤ a.pv) (hcover : a.N ≤ 
 /-- KNOWN FINDING (negative): `blend_and_assemble` as the code stands raises on every call (`_prepare_weights` reads
 `self.pw`, `self.ph`, `self.ow`, … and `base.num_pixels_width`, which no longer exist), so neither
 "zero overlap ⇒ equals assemble()" nor "blending unmodified patches reproduces the image" holds for the code. -/
-theorem blend_and_assemble_unusable (a0 a1 : Axis) : blendAndAssemble a0 a1 = .error .other := rfl
+theorem blend_and_assemble_unusable (a0 a1 : Axis) : blendAndAssemble a0 a1 = .error .other := rfl  -- definitional: the model records the error class; the exact exception (AttributeError on `pw`) is pinned by the known-finding signature
 
 /-- SPECIFICATION a repaired blending has to meet (not the code): weights that sum to one at a pixel, applied to
 patches that all hold the base value there, give the base value; the interior indicators (zero-overlap blending,
